@@ -4,27 +4,30 @@ import json
 
 from harness import common, front, tlc
 
-CFG = ('SPECIFICATION Spec\nINVARIANT Tiling\nINVARIANT ErrLocated\nINVARIANT OnlyTwoErrors\n'
+CFG = ('SPECIFICATION Spec\nINVARIANT Tiling\nINVARIANT ErrLocated\nINVARIANT OnlyTwoErrors\nINVARIANT SameProgram\n'
        'INVARIANT Export\nPROPERTY FrameProgress\nCHECK_DEADLOCK FALSE\n')
 
 _CASES = None
 
 
-def run_machine(cases, chunk=15000, coverage=False):
+def run_machine(cases, chunk=15000, coverage=False, allow_same_violation=False):
     """cases: list of dicts with syn, src (str), env (dict or None).  Returns (list of exported behaviours
     in case order (None where missing), aggregated TLC statistics)."""
     out = [None] * len(cases)
     stats = {'states': 0, 'transitions': 0, 'runs': 0, 'coverage': {}}
     for lo in range(0, len(cases), chunk):
         part = cases[lo:lo + chunk]
-        js = json.dumps([front.case(c['syn'], c['src'], c.get('env')) for c in part])
+        js = json.dumps([front.case_multi(c['spellings'], c.get('env'), True) if 'spellings' in c else
+                         front.case(c['syn'], c['src'], c.get('env')) for c in part])
 
-        def on_print(v, lo=lo):
-            out[lo + v['tid'] - 1] = v
+        def on_print(v, lo=lo, part=part):
+            out[lo + v['tid'] - 1] = v['outs'] if 'spellings' in part[v['tid'] - 1] else v['outs'][0]
         res = tlc.run('DTParse', CFG, files={'cases.json': js}, on_print=on_print, keep_prints=False,
                       timeout=3400, coverage=coverage, extra_java=['-Xss16m'])
-        if res.violated:
+        if res.violated and not (res.violated == 'SameProgram' and allow_same_violation):
             raise tlc.TLCFailure('DTParse machine violates %s\n%s' % (res.violated, (res.error_trace or '')[:2500]))
+        if res.violated:
+            stats['same_program_violated'] = (res.error_trace or '')[:3000]
         stats['states'] += res.distinct
         stats['transitions'] += res.generated
         stats['runs'] += 1
